@@ -1021,6 +1021,48 @@ func popcount(s St) int {
 	return n
 }
 
+// edgeExcluded: the edge pred -> to is taken only on an outcome of a test of the function's subject field that unit u excludes.
+func (m *matrix) edgeExcluded(fn *ssa.Function, pred, to *ssa.BasicBlock, u *unit) bool {
+	if len(pred.Succs) != 2 || pred.Succs[0] == pred.Succs[1] {
+		return false
+	}
+	cond := branchCond(pred)
+	if cond == nil {
+		return false
+	}
+	tf, refine := fieldTest(cond)
+	if tf == nil || refine == nil {
+		return false
+	}
+	s, f := m.stateAt(fn, pred)
+	if f == nil || f == ctxField {
+		return false
+	}
+	same := stripIdentity(tf) == stripIdentity(f)
+	if !same {
+		// the field lives in a cell (captured by a closure): two loads of one once-assigned variable
+		if a, b := cellOf(tf), cellOf(f); a != nil && a == b {
+			same = true
+		}
+		if p, ok := stripIdentity(f).(*ssa.Parameter); ok && !same {
+			if al := cellOf(tf); al != nil {
+				if st, esc := cellStores(al); !esc && len(st) == 1 && stripIdentity(st[0].Val) == ssa.Value(p) {
+					same = true
+				}
+			}
+		}
+	}
+	if !same {
+		return false
+	}
+	idx := 0
+	if pred.Succs[1] == to {
+		idx = 1
+	}
+	rs := refine(s, idx == 0)
+	return rs.empty() || !rs.admits(*u)
+}
+
 // feasible: can block b of fn execute for a field of unit u (when the function's field is the subject field)?
 func (m *matrix) feasible(fn *ssa.Function, b *ssa.BasicBlock, u *unit) bool {
 	if u == nil {
@@ -1546,6 +1588,12 @@ func (c *depCtx) compute(v ssa.Value) src {
 		for i, e := range x.Edges {
 			pred := x.Block().Preds[i]
 			if !c.m.feasible(c.fn, pred, c.u) {
+				continue
+			}
+			// the edge itself: a test of the subject field that ends the predecessor and sends control here on the outcome the
+			// cell excludes (`prefix := stringPrefix; if f.IsRepeat { prefix = listPrefix }` - in a list cell the first value never
+			// arrives)
+			if c.u != nil && c.m.edgeExcluded(c.fn, pred, x.Block(), c.u) {
 				continue
 			}
 			d |= c.deps(e)
